@@ -364,7 +364,12 @@ class RIBFamily:
                             other[f"{k.get('property')}:known finding {c[3:]}"] += 1
                         continue
                     # a quirk the known-findings file does not list: an ordinary violation
-                owners = self.attr(c, ev, rec)
+                owners = set(self.attr(c, ev, rec))
+                # a deviation observed at an operation that is itself malformed (invalid content, empty or unknown network
+                # instance) is a deviation of "malformed operations are rejected in-band without effect" as well
+                mop = rec.get("op") or {}
+                if isinstance(mop, dict) and (mop.get("bad") or mop.get("ni") in ("", "nosuchni") or mop.get("gni") == "nosuchni"):
+                    owners.add("C12")
                 if ctx.prop in owners:
                     mine.append(c)
                 else:
